@@ -398,6 +398,68 @@ func c08JudgeB(c c08BCase) (clause, detail string) {
 	return "", ""
 }
 
+// c08JudgeSeq sends two conformant reports one after the other to ONE handler (same process state)
+// and checks that the second reaches the backend as what it denotes: nothing of the first may linger.
+func c08JudgeSeq(first, second indep.RCalReport) (clause, detail string) {
+	l := c12LayoutFor("")
+	b := &harness.CalBackend{Principal: l.Principal, HomeSet: l.HomeSet, Calendars: []caldav.Calendar{{Path: l.Coll1}},
+		Objects: []caldav.CalendarObject{{Path: "/u/c/k1/o1.ics", ETag: "e", Data: harness.SampleCalendar("1", "s")}}}
+	h := &caldav.Handler{Backend: b}
+	send := func(r indep.RCalReport) harness.Resp {
+		body := indep.Render(indep.CalReportEl(&r, false), indep.Style{})
+		return harness.Serve(h, harness.Req{Method: "REPORT", Path: l.Coll1, Header: map[string]string{"Content-Type": "application/xml", "Depth": "1"}, Body: string(body)})
+	}
+	if r := send(first); r.Status != 207 {
+		return "conformant-request-refused", fmt.Sprint(r.Status)
+	}
+	b.Reset()
+	if r := send(second); r.Status != 207 {
+		return "conformant-request-refused", fmt.Sprint(r.Status)
+	}
+	wantData := indep.RCalData{Comp: &indep.RComp{AllProp: true, AllComp: true}}
+	if second.CalData != nil {
+		if second.CalData.Comp != nil {
+			wantData.Comp = second.CalData.Comp
+		}
+		wantData.Expand = second.CalData.Expand
+	}
+	for _, cl := range b.Snapshot() {
+		var got *indep.RCalData
+		switch cl.Method {
+		case "QueryCalendarObjects":
+			q := cl.Arg.(caldav.CalendarQuery)
+			got = rCalData(q.CompRequest)
+			if a, w := js(rCompFilter(q.CompFilter)), js(second.Filter); a != w {
+				return "filter-altered-by-previous-request", fmt.Sprintf("backend got %s; document denotes %s", a, w)
+			}
+		case "GetCalendarObject":
+			if cr, ok := cl.Arg.(caldav.CalendarCompRequest); ok {
+				got = rCalData(cr)
+			}
+		}
+		if got != nil {
+			if a, w := js(got), js(&wantData); a != w {
+				return "selection-altered-by-previous-request", fmt.Sprintf("backend got %s; document denotes %s", a, w)
+			}
+		}
+	}
+	return "", ""
+}
+
+func c08SeqDocs() []indep.RCalReport {
+	f := indep.RCompFilter{Name: "VCALENDAR", Comps: []indep.RCompFilter{{Name: "VEVENT", Range: &indep.RRange{HasStart: true, Start: 1577872800}}}}
+	f2 := indep.RCompFilter{Name: "VCALENDAR"}
+	ex := &indep.RRange{HasStart: true, Start: 1577872800, HasEnd: true, End: 1578000000}
+	comp := &indep.RComp{Name: "VCALENDAR", Props: []string{"VERSION"}, Comps: []indep.RComp{{Name: "VEVENT", AllProp: true}}}
+	var out []indep.RCalReport
+	for _, cd := range []*indep.RCalData{nil, {}, {Expand: ex}, {Comp: comp}, {Comp: comp, Expand: ex}} {
+		out = append(out, indep.RCalReport{Root: "calendar-query", PropForm: "prop", CalData: cd, Filter: &f})
+		out = append(out, indep.RCalReport{Root: "calendar-query", PropForm: "prop", CalData: cd, Filter: &f2})
+		out = append(out, indep.RCalReport{Root: "calendar-multiget", PropForm: "prop", CalData: cd, Hrefs: []string{"/u/c/k1/o1.ics"}})
+	}
+	return out
+}
+
 func c08FeatureClass(f caldav.CompFilter) string {
 	feats := map[string]bool{}
 	var walk func(f caldav.CompFilter, d int)
@@ -543,6 +605,28 @@ func init() {
 			}
 		}
 		r.Extra["direction_b_cases"] = len(bcases)
+		// two-request histories on one handler, run BEFORE the parallel part and sequentially, so that
+		// state a request might leave behind in the process is observed deterministically
+		{
+			docs := c08SeqDocs()
+			sh := r.Shard()
+			for i, d1 := range docs {
+				for j, d2 := range docs {
+					sh.Transition()
+					sh.Transition()
+					clause, detail := c08JudgeSeq(d1, d2)
+					sh.Clause("history: the second of two reports on one handler is unaffected by the first")
+					sh.Outcome("seq/" + clause)
+					sh.Nontrivial(fmt.Sprintf("SEQ/%d/%d", i, j))
+					if clause != "" {
+						sh.Violate(engine.Violation{Sig: "C08/server/" + clause + "/" + d1.Root + "-then-" + d2.Root, Clause: clause, Index: int64(1)<<40 + int64(i*100+j), Kind: "C08-seq",
+							Case: map[string]interface{}{"First": d1, "Second": d2}, Expected: "second request decoded independently of the first", Observed: detail})
+					}
+				}
+			}
+			r.Merge(sh)
+			r.Extra["two_request_histories"] = len(docs) * len(docs)
+		}
 		base := int64(len(acases))
 		r.Parallel(len(bcases), func(i int, s *engine.Shard) {
 			c := bcases[i]
@@ -565,6 +649,16 @@ func init() {
 				s.Violate(engine.Violation{Sig: "C08/server/" + clause + "/" + cls, Clause: clause, Index: base + int64(i), Kind: "C08-B", Case: c, Expected: "backend receives what the RFC-conformant document denotes", Observed: detail})
 			}
 		})
+	})
+	registerReplay("C08-seq", func(raw json.RawMessage) (bool, string) {
+		var c struct {
+			First, Second indep.RCalReport
+		}
+		if err := json.Unmarshal(raw, &c); err != nil {
+			return false, err.Error()
+		}
+		clause, detail := c08JudgeSeq(c.First, c.Second)
+		return clause == "", clause + " " + detail
 	})
 	registerReplay("C08-A", func(raw json.RawMessage) (bool, string) {
 		var c c08ACase
